@@ -113,6 +113,12 @@ pub struct Detail {
     /// None: the fixed `<RltdPties><Dbtr><Nm>NOTPROVIDED` of the C18 statements
     #[serde(default)]
     pub parties: Option<Parties>,
+    /// <RvslInd> written inside the TxDtls (not an element the importer reads): absent = None
+    #[serde(default)]
+    pub reversal: Option<bool>,
+    /// <TtlChrgsAndTaxAmt> of the Chrgs element (only written when `charges` is Some)
+    #[serde(default)]
+    pub charges_total: Option<XAmt>,
 }
 
 /// the Btch header of NtryDtls (optional in camt.053; the importer must not depend on it)
@@ -150,6 +156,17 @@ pub struct Entry {
     pub frag: Frag,
     #[serde(default)]
     pub batch: BatchHdr,
+    /// <RvslInd> of the entry: absent = None.  CdtDbtInd already is the real direction of a
+    /// reversal entry, so the element must not change the booking.  (Older replay files: false.)
+    #[serde(default = "rvsl_legacy")]
+    pub reversal: Option<bool>,
+    /// <TtlChrgsAndTaxAmt> of the Chrgs element (only written when `charges` is Some)
+    #[serde(default)]
+    pub charges_total: Option<XAmt>,
+}
+
+fn rvsl_legacy() -> Option<bool> {
+    Some(false)
 }
 
 #[derive(Clone, Debug, PartialEq, Serialize, Deserialize, Hash)]
@@ -219,10 +236,13 @@ fn date_xml(tag: &str, d: &XDate) -> String {
     }
 }
 
-fn charges_xml(ind: &str, c: &Option<Vec<ChargeRec>>) -> String {
+fn charges_xml(ind: &str, c: &Option<Vec<ChargeRec>>, total: &Option<XAmt>) -> String {
     let mut s = String::new();
     if let Some(rs) = c {
         writeln!(s, "{}<Chrgs>", ind).unwrap();
+        if let Some(t) = total {
+            writeln!(s, "{}  {}", ind, amt_xml("TtlChrgsAndTaxAmt", t)).unwrap();
+        }
         for r in rs {
             writeln!(s, "{}  <Rcrd>", ind).unwrap();
             writeln!(s, "{}    {}", ind, amt_xml("Amt", &r.amt)).unwrap();
@@ -292,13 +312,16 @@ pub fn xml(stmts: &[Statement]) -> String {
             s.push_str("      <Ntry>\n");
             writeln!(s, "        {}", amt_xml("Amt", &e.amt)).unwrap();
             writeln!(s, "        <CdtDbtInd>{}</CdtDbtInd>", cd(e.credit)).unwrap();
-            s.push_str("        <RvslInd>false</RvslInd>\n        <Sts>BOOK</Sts>\n");
+            if let Some(v) = e.reversal {
+                writeln!(s, "        <RvslInd>{}</RvslInd>", v).unwrap();
+            }
+            s.push_str("        <Sts>BOOK</Sts>\n");
             writeln!(s, "        {}", date_xml("BookgDt", &e.booking)).unwrap();
             if let Some(v) = &e.value {
                 writeln!(s, "        {}", date_xml("ValDt", v)).unwrap();
             }
             s.push_str("        <BkTxCd>\n          <Domn>\n            <Cd>PMNT</Cd>\n            <Fmly>\n              <Cd>RCDT</Cd>\n              <SubFmlyCd>OTHR</SubFmlyCd>\n            </Fmly>\n          </Domn>\n        </BkTxCd>\n");
-            s.push_str(&charges_xml("        ", &e.charges));
+            s.push_str(&charges_xml("        ", &e.charges, &e.charges_total));
             if e.dtls_element || !e.details.is_empty() {
                 s.push_str("        <NtryDtls>\n");
                 let nb = match &e.batch {
@@ -317,6 +340,9 @@ pub fn xml(stmts: &[Statement]) -> String {
                     s.push_str("              <EndToEndId>NOTPROVIDED</EndToEndId>\n            </Refs>\n");
                     writeln!(s, "            {}", amt_xml("Amt", &d.amt)).unwrap();
                     writeln!(s, "            <CdtDbtInd>{}</CdtDbtInd>", cd(d.credit)).unwrap();
+                    if let Some(v) = d.reversal {
+                        writeln!(s, "            <RvslInd>{}</RvslInd>", v).unwrap();
+                    }
                     if let Some(ad) = &d.details {
                         s.push_str("            <AmtDtls>\n");
                         writeln!(s, "              <InstdAmt>\n                {}\n              </InstdAmt>", amt_xml("Amt", &ad.instd)).unwrap();
@@ -326,7 +352,7 @@ pub fn xml(stmts: &[Statement]) -> String {
                         }
                         s.push_str("              </TxAmt>\n            </AmtDtls>\n");
                     }
-                    s.push_str(&charges_xml("            ", &d.charges));
+                    s.push_str(&charges_xml("            ", &d.charges, &d.charges_total));
                     match &d.parties {
                         None => s.push_str("            <RltdPties>\n              <Dbtr>\n                <Nm>NOTPROVIDED</Nm>\n              </Dbtr>\n            </RltdPties>\n"),
                         Some(p) => s.push_str(&parties_xml(p)),
@@ -537,16 +563,20 @@ fn gen_frag(r: &mut Rng) -> Frag {
 
 /// A charge record set and the signed sum (units of 1e-4, debit charge positive) of the
 /// non-zero included ones.
-fn gen_charges(r: &mut Rng, ccy: &str, scale: u32, allow_not_included: bool) -> (Option<Vec<ChargeRec>>, i128, bool) {
+fn gen_charges(r: &mut Rng, ccy: &str, scale: u32, allow_not_included: bool, mode: ChargeMode) -> (Option<Vec<ChargeRec>>, i128, bool) {
+    if mode == ChargeMode::Never {
+        return (None, 0, false);
+    }
     if r.chance(3, 5) {
         return (None, 0, false);
     }
-    let n = 1 + r.below(2);
+    // zero-only: also a Chrgs element without any record (only the zero total, gen_total)
+    let n = if mode == ChargeMode::ZeroOnly { r.below(3) } else { 1 + r.below(2) };
     let mut rs = Vec::new();
     let mut sum = 0i128;
     let mut not_incl = false;
     for _ in 0..n {
-        let zero = r.chance(1, 5);
+        let zero = mode == ChargeMode::ZeroOnly || r.chance(1, 5);
         let m = if zero { 0 } else { r.range(1, 300) as u64 };
         let credit = r.chance(1, 5);
         let included = if allow_not_included && !not_incl && r.chance(1, 4) {
@@ -568,6 +598,43 @@ fn gen_charges(r: &mut Rng, ccy: &str, scale: u32, allow_not_included: bool) -> 
     (Some(rs), sum, not_incl)
 }
 
+/// TtlChrgsAndTaxAmt: absent, or the sum of the records' amounts (always present when there is
+/// no record at all: `<Chrgs><TtlChrgsAndTaxAmt Ccy="CHF">0.00</TtlChrgsAndTaxAmt></Chrgs>`)
+fn gen_total(r: &mut Rng, c: &Option<Vec<ChargeRec>>, ccy: &str, scale: u32) -> Option<XAmt> {
+    let rs = c.as_ref()?;
+    if !rs.is_empty() && r.chance(1, 2) {
+        return None;
+    }
+    let sum: i128 = rs.iter().map(|x| x.amt.v.units()).sum();
+    Some(XAmt { v: dec_of_units(sum, scale), ccy: ccy.to_string() })
+}
+
+/// which charge records a statement may carry
+#[derive(Clone, Copy, PartialEq, Eq, Debug)]
+pub enum ChargeMode {
+    Never,
+    /// Chrgs elements with a zero total and no record, or zero-amount records only: nothing is
+    /// booked for them, so they need no `operator` in the configuration
+    ZeroOnly,
+    Any,
+}
+
+pub fn gen_rvsl_entry(r: &mut Rng) -> Option<bool> {
+    match r.below(6) {
+        0 => Some(true),
+        1 => None,
+        _ => Some(false),
+    }
+}
+
+pub fn gen_rvsl_detail(r: &mut Rng) -> Option<bool> {
+    match r.below(8) {
+        0 => Some(true),
+        1 => Some(false),
+        _ => None,
+    }
+}
+
 fn dec_of_units(u: i128, scale: u32) -> Dec {
     let p = 10i128.pow(4 - scale);
     let q = u / p;
@@ -575,7 +642,7 @@ fn dec_of_units(u: i128, scale: u32) -> Dec {
 }
 
 /// One statement in currency `ccy` starting at `opening` (units of 1e-4); returns it and its closing balance.
-fn gen_statement(r: &mut Rng, ccy: &str, scale: u32, opening: i128, b: &Bias, counter: &mut u32, has_operator: bool) -> (Statement, i128, bool) {
+fn gen_statement(r: &mut Rng, ccy: &str, scale: u32, opening: i128, b: &Bias, counter: &mut u32, mode: ChargeMode) -> (Statement, i128, bool) {
     let n = match r.below(12) {
         0 => 0,
         1 => 1,
@@ -609,15 +676,17 @@ fn gen_statement(r: &mut Rng, ccy: &str, scale: u32, opening: i128, b: &Bias, co
             // plain entry: no TxDtls
             let m = gen_value(r, scale);
             let amt = XAmt { v: Dec { neg: false, m, scale, bare_dot: r.chance(1, 12) }, ccy: ccy.to_string() };
-            let (charges, inc_sum, ni) = if has_operator && r.chance(1, 4) { gen_charges(r, ccy, scale, true) } else { (None, 0, false) };
+            let (charges, inc_sum, ni) = if r.chance(1, 4) { gen_charges(r, ccy, scale, true, mode) } else { (None, 0, false) };
+            let charges_total = gen_total(r, &charges, ccy, scale);
             if inc_sum != 0 || ni {
                 consistent = false; // an included charge on an entry without details cannot be explained
             }
             total += sgn * amt.v.units();
-            entries.push(Entry { amt, credit, booking, value, charges, dtls_element: r.chance(1, 2), details: vec![], info: format!("N{}", k), frag: gen_frag(r), batch: BatchHdr::Consistent });
+            entries.push(Entry { amt, credit, booking, value, charges, dtls_element: r.chance(1, 2), details: vec![], info: format!("N{}", k), frag: gen_frag(r), batch: BatchHdr::Consistent, reversal: gen_rvsl_entry(r), charges_total });
         } else {
             let nd = if kind < 6 { 1 } else { r.range(2, 4) as usize };
-            let (echarges, e_inc, e_ni) = if has_operator && r.chance(1, 6) { gen_charges(r, ccy, scale, nd == 1) } else { (None, 0, false) };
+            let (echarges, e_inc, e_ni) = if r.chance(1, 6) { gen_charges(r, ccy, scale, nd == 1, mode) } else { (None, 0, false) };
+            let echarges_total = gen_total(r, &echarges, ccy, scale);
             let mut details = Vec::new();
             let mut sum = 0i128;
             for j in 0..nd {
@@ -625,7 +694,8 @@ fn gen_statement(r: &mut Rng, ccy: &str, scale: u32, opening: i128, b: &Bias, co
                 let ds: i128 = if dcredit { 1 } else { -1 };
                 let m = gen_value(r, scale).max(if e_inc != 0 { 400 } else { 0 });
                 let amt = XAmt { v: Dec { neg: false, m, scale, bare_dot: false }, ccy: ccy.to_string() };
-                let (dcharges, d_inc, d_ni) = if has_operator && r.chance(1, 4) { gen_charges(r, ccy, scale, !e_ni) } else { (None, 0, false) };
+                let (dcharges, d_inc, d_ni) = if r.chance(1, 4) { gen_charges(r, ccy, scale, !e_ni, mode) } else { (None, 0, false) };
+                let dcharges_total = gen_total(r, &dcharges, ccy, scale);
                 let inc = e_inc + d_inc;
                 if e_ni || d_ni {
                     consistent = false; // outside "charges included in the amount"
@@ -656,6 +726,8 @@ fn gen_statement(r: &mut Rng, ccy: &str, scale: u32, opening: i128, b: &Bias, co
                     info: if r.chance(9, 10) { Some(format!("T{}x{}", k, j + 1)) } else { None },
                     frag: gen_frag(r),
                     parties: None,
+                    reversal: gen_rvsl_detail(r),
+                    charges_total: dcharges_total,
                 });
             }
             // the entry amount is the signed sum of its details
@@ -675,7 +747,7 @@ fn gen_statement(r: &mut Rng, ccy: &str, scale: u32, opening: i128, b: &Bias, co
                 3 => BatchHdr::Count(nd + 1 + r.below(3) as usize),
                 _ => BatchHdr::Consistent,
             };
-            entries.push(Entry { amt: eamt, credit: ecredit, booking, value, charges: echarges, dtls_element: true, details, info: format!("B{}", k), frag: Frag::default(), batch });
+            entries.push(Entry { amt: eamt, credit: ecredit, booking, value, charges: echarges, dtls_element: true, details, info: format!("B{}", k), frag: Frag::default(), batch, reversal: gen_rvsl_entry(r), charges_total: echarges_total });
         }
     }
     let mut closing = total;
@@ -721,7 +793,19 @@ fn all_accounts_fresh(c: &Case) -> bool {
 pub fn gen_case(r: &mut Rng, b: &Bias) -> Case {
     let ccy = r.pick(&CCYS).to_string();
     let scale = if ccy == "JPY" { *r.pick(&[0u32, 0, 2]) } else { *r.pick(&[2u32, 2, 2, 1, 0, 3]) };
-    let has_operator = r.chance(9, 10);
+    // `operator` is optional: it is only needed when a charge is actually booked.  Without it a
+    // statement has no Chrgs at all, Chrgs that book nothing (zero total / zero-amount records),
+    // or real charges - then the import must fail with the invalid-configuration error.
+    let has_operator = r.chance(4, 5);
+    let mode = if has_operator {
+        ChargeMode::Any
+    } else {
+        match r.below(5) {
+            0 => ChargeMode::Never,
+            1 | 2 => ChargeMode::ZeroOnly,
+            _ => ChargeMode::Any,
+        }
+    };
     let cfg = Cfg {
         account: r.pick(&["Assets:Okane Bank", "Assets:Bank:CHF", "Liabilities:Card"]).to_string(),
         operator: if has_operator { Some("Okane Bank (fee)".to_string()) } else { None },
@@ -740,7 +824,7 @@ pub fn gen_case(r: &mut Rng, b: &Bias) -> Case {
     let opening = if zero_mode == 0 { 0 } else { (r.range(-200_000, 10_000_000) as i128) * 10i128.pow(4 - scale) };
     let mut stmts = Vec::new();
     let mut tag = String::from("consistent");
-    let (mut s1, mut closing1, ok1) = gen_statement(r, &ccy, scale, opening, b, &mut counter, has_operator);
+    let (mut s1, mut closing1, ok1) = gen_statement(r, &ccy, scale, opening, b, &mut counter, mode);
     if zero_mode == 1 {
         // shift both balances by the closing balance: the figures stay as (in)consistent as they were
         closing1 = shift_balances(&mut s1, closing1, scale, &ccy);
@@ -748,7 +832,7 @@ pub fn gen_case(r: &mut Rng, b: &Bias) -> Case {
     stmts.push(s1);
     let mut ok = ok1;
     if r.chance(b.two_stmt_pct, 100) {
-        let (s2, _c2, ok2) = gen_statement(r, &ccy, scale, closing1, b, &mut counter, has_operator);
+        let (s2, _c2, ok2) = gen_statement(r, &ccy, scale, closing1, b, &mut counter, mode);
         stmts.push(s2);
         ok = ok && ok2;
     }
@@ -802,10 +886,40 @@ pub fn gen_case(r: &mut Rng, b: &Bias) -> Case {
             }
         }
     }
+    if case.cfg.operator.is_none() && case.tag != "error" && nonzero_charges(&case) > 0 {
+        case.tag = "error".into();
+    }
     if !all_accounts_fresh(&case) {
         case.tag = "clash".into();
     }
     case
+}
+
+pub fn nonzero_charges(c: &Case) -> usize {
+    shape(c).2
+}
+
+/// (Chrgs elements, of which without any non-zero record)
+pub fn charge_elements(c: &Case) -> (usize, usize) {
+    let mut all = 0;
+    let mut zero = 0;
+    let mut see = |c: &Option<Vec<ChargeRec>>| {
+        if let Some(rs) = c {
+            all += 1;
+            if rs.iter().all(|r| r.amt.v.m == 0) {
+                zero += 1;
+            }
+        }
+    };
+    for st in &c.stmts {
+        for e in &st.entries {
+            see(&e.charges);
+            for d in &e.details {
+                see(&d.charges);
+            }
+        }
+    }
+    (all, zero)
 }
 
 pub fn shape(c: &Case) -> (usize, usize, usize, usize) {
